@@ -6,7 +6,10 @@ import (
 	stdjson "encoding/json"
 	"fmt"
 	"reflect"
+	"strconv"
+	"strings"
 	"testing"
+	"time"
 
 	segjson "github.com/segmentio/encoding/json"
 	"pgregory.net/rapid"
@@ -333,6 +336,62 @@ func runOne(rt *rapid.T, test string, c Case, typ reflect.Type) {
 		}
 		evid.Violation(rt, test, c, f)
 	}
+}
+
+// TestDuration: the sanctioned difference. A time.Duration target accepts what
+// an int64 target accepts (same value) and additionally a quoted duration
+// string as parsed by time.ParseDuration.
+func TestDuration(t *testing.T) {
+	evid.Check(t, "Duration", 4000, func(rt *rapid.T) {
+		var doc string
+		switch rapid.IntRange(0, 3).Draw(rt, "k") {
+		case 0:
+			doc = strconv.FormatInt(rapid.Int64().Draw(rt, "ns"), 10)
+		case 1:
+			doc = rapid.SampledFrom([]string{"0", "1", "-5", "1000000000", "9223372036854775807", "9223372036854775808", "-9223372036854775808", "1.5", "1e3", "null", "true", "[]", "{}", "\"\"", "01", "-"}).Draw(rt, "lit")
+		case 2:
+			d := time.Duration(rapid.Int64().Draw(rt, "d"))
+			doc = strconv.Quote(d.String())
+		default:
+			doc = strconv.Quote(rapid.SampledFrom([]string{"1s", "1h2m3.5s", "-1.5ms", "1.5h", "2us", "3\u00b5s", "0", "bad", "", "1", "1 s", "1H", "+5m", "9223372036854775807ns", "9223372036854775808ns", ".5s", "1e3s"}).Draw(rt, "dur"))
+		}
+		evid.Eval(1)
+		evid.Label("duration")
+		evid.NonTrivial(evid.HashS("duration", doc))
+		if f := checkDuration(doc); f != nil {
+			evid.Violation(rt, "Duration", map[string]any{"duration_doc": doc}, f)
+		}
+	})
+}
+
+func checkDuration(doc string) (f *evid.Failure) {
+	defer func() {
+		if p := recover(); p != nil {
+			f = &evid.Failure{Oracle: "no panic", Observed: fmt.Sprint("panic: ", p), Class: "panic"}
+		}
+	}()
+	var got time.Duration = 12345
+	gerr := segjson.Unmarshal([]byte(doc), &got)
+	// reference: int64 decoding by encoding/json, or time.ParseDuration for a JSON string
+	var wantOK bool
+	var want time.Duration = 12345
+	var s string
+	if err := stdjson.Unmarshal([]byte(doc), &s); err == nil && strings.HasPrefix(strings.TrimSpace(doc), "\"") {
+		d, perr := time.ParseDuration(s)
+		wantOK, want = perr == nil, d
+	} else {
+		var n int64 = 12345
+		if err := stdjson.Unmarshal([]byte(doc), &n); err == nil {
+			wantOK, want = true, time.Duration(n)
+		}
+	}
+	if wantOK != (gerr == nil) {
+		return &evid.Failure{Oracle: "Duration target accepts exactly int64 documents and quoted durations accepted by time.ParseDuration", Observed: fmt.Sprintf("err=%v", gerr), Expected: fmt.Sprintf("accept=%v", wantOK), Class: "duration-accept"}
+	}
+	if wantOK && got != want {
+		return &evid.Failure{Oracle: "Duration value equals the int64 / time.ParseDuration value", Observed: fmt.Sprint(int64(got)), Expected: fmt.Sprint(int64(want)), Class: "duration-value"}
+	}
+	return nil
 }
 
 // TestUnescape: Unescape / AppendUnescape on valid string literals against
